@@ -1037,8 +1037,10 @@ MUTANTS = [
     {"id": "c06-sac-target-may-be-online", "file": _A + "sac.py", "rule": "R2", "find": "    if q_target is None:\n        q_target = nnx.clone(q)", "replace": "    q_target = q if q_target is None else q_target"},
     {"id": "c06-ddpg-update-in-undocumented-routine", "file": _A + "ddpg.py", "rule": "R4", "edits": [("from ..blox.target_net import soft_target_net_update", "from ..blox.target_net import soft_target_net_update, hard_target_net_update"), (") -> float:\n    r\"\"\"DDPG actor update.", ") -> float:\n    hard_target_net_update(q, policy)\n    r\"\"\"DDPG actor update.")]},
     {"id": "c06-ddqn-extra-helper", "file": _A + "ddqn.py", "rule": "R4", "find": "            if step % target_update_frequency == 0:\n                hard_target_net_update(q_net, q_target_net)", "replace": "            if step % target_update_frequency == 0:\n                hard_target_net_update(q_net, q_target_net)\n        if terminated:\n            hard_target_net_update(q_net, q_target_net)"},
+    {"id": "c06-td7-target-embedding-aliased-on-one-path", "file": "rl_blox/algorithm/td7.py", "rule": "R2", "find": '    policy = DeterministicSALEPolicy(fixed_embedding, actor)\n    policy_target = DeterministicSALEPolicy(\n        fixed_embedding_target, actor_target\n    )\n', "replace": '    policy = DeterministicSALEPolicy(fixed_embedding, actor)\n    if use_checkpoints:\n        policy_target = DeterministicSALEPolicy(fixed_embedding_target, actor_target)\n    else:\n        policy_target = DeterministicSALEPolicy(policy.embedding, actor_target)\n'},
 ]
 BENIGN = [
+    {"id": "c06-b-td7-target-embedding-cloned-on-both-paths", "file": "rl_blox/algorithm/td7.py", "find": '    policy = DeterministicSALEPolicy(fixed_embedding, actor)\n    policy_target = DeterministicSALEPolicy(\n        fixed_embedding_target, actor_target\n    )\n', "replace": '    policy = DeterministicSALEPolicy(fixed_embedding, actor)\n    if use_checkpoints:\n        policy_target = DeterministicSALEPolicy(fixed_embedding_target, actor_target)\n    else:\n        policy_target = DeterministicSALEPolicy(nnx.clone(policy.embedding), actor_target)\n'},
     {"id": "c06-b-td7-hard-copy-written-out", "file": _A + "td7.py", "find": "                    hard_target_net_update(policy, checkpoint)", "replace": "                    nnx.update(checkpoint, nnx.state(policy))"},
     {"id": "c06-b-soft-treemap", "file": _T, "edits": [("import optax\n", "import optax\nimport jax\n"), ("optax.incremental_update(params, target_params, tau)", "jax.tree.map(lambda p, t: t + tau * (p - t), params, target_params)")]},
     {"id": "c06-b-td7-early-return", "file": _A + "td7.py", "edits": [("    if epoch % target_delay == 0:\n        hard_target_net_update(policy.actor, policy_target.actor)", "    if epoch % target_delay != 0:\n        return metrics, epochs\n    if True:\n        hard_target_net_update(policy.actor, policy_target.actor)")]},
